@@ -17,8 +17,7 @@ class Abort(BaseException):
     """infeasible path / failed assumption (path silently dropped)"""
 
 
-class Inconclusive(BaseException):
-    """engine limit hit on this path (cap, unknown, unsupported op)"""
+Inconclusive = ir.Inconclusive
 
 
 class PathEnd(BaseException):
@@ -352,9 +351,7 @@ class Ctx(object):
                     ent[2] = 'done'
                     self.note_inconclusive('cap:concretize')
                     raise Inconclusive('concretisation cap (%d values) at a single site' % self.conc_cap)
-                w = n.w
-                t = ir.full(n)
-                ok, m = self.feasible(z3.And(*[t != z3.BitVecVal(v, w) for v in ent[3]]))
+                ok, m = self.feasible(z3.And(*[ir.neq_const(n, v) for v in ent[3]]))
                 if not ok:
                     ent[2] = 'done'
                     raise Abort()
@@ -463,6 +460,7 @@ class ExploreResult(object):
 def explore(fn, V, opts=None, known=()):
     """Run harness fn(V) over all paths.  V is a sx.api.SymV instance."""
     opts = dict(opts or {})
+    ir.set_mode(opts.get('arith', 'bv'))
     res = ExploreResult()
     st = res.stats
     max_paths = opts.get('max_paths', 200000)
